@@ -15,7 +15,8 @@ ROUNDS, SEED, OUT = int(sys.argv[1]), int(sys.argv[2]), sys.argv[3]
 SCALE = sys.argv[4] if len(sys.argv) > 4 else "0.25"
 rnd = random.Random(SEED)
 ENV = dict(os.environ, GOFLAGS="", GOPROXY="off", GOSUMDB="off", GOTOOLCHAIN="local")
-PROPS = [c["property_id"] for c in json.load(open("/verif/MANIFEST.json"))["checks"]]
+VERIF = os.path.dirname(os.path.dirname(os.path.abspath(__file__)))  # the tree this script lives in (a vp snapshot or /verif)
+PROPS = [c["property_id"] for c in json.load(open(os.path.join(VERIF, "MANIFEST.json")))["checks"]]
 
 OPS = [
     (r"<=", "<"), (r">=", ">"), (r"(?<![<>=!:])<(?![<=-])", "<="), (r"(?<![<>=-])>(?![>=])", ">="),
@@ -116,7 +117,7 @@ for n in range(ROUNDS):
     t0 = time.time()
     env = dict(os.environ, VERIF_REPO=root, VERIF_SCALE=SCALE, VERIF_NO_EVIDENCE="1")
     for p in PROPS:
-        rc, out = run(f"./check {p} 2>/dev/null | tail -1", "/verif", 900, env)
+        rc, out = run(f"./check {p} 2>/dev/null | tail -1", VERIF, 900, env)
         if "VIOLATION" in out:
             caught.append(p)
             if len(caught) >= 2:
